@@ -60,7 +60,7 @@ theorem DestPlain.res {fs : Fs} {D : Path} (hP : DestPlain fs D) (follow : Bool)
   intro p h
   unfold Fs.resolve at h
   have := walk_clean fs follow resolveFuel maxSymlinks [] D [] hP.good (fun _ hc => nomatch hc)
-    (fun pre hp _ hne => by rw [List.nil_append]; exact noneOrDir_of_isDir (hP.dirs pre hp hne))
+    (fun pre hp _ hne => by rw [List.nil_append]; exact (noneOrDir_of_isDir (hP.dirs pre hp hne)).notLink)
     (Or.inr (by rw [List.nil_append]; exact FinalNotLink.of_noneOrDir hP.self)) p (by simpa using h)
   simpa using this
 
